@@ -104,6 +104,11 @@ def main():
             r["caught_by"] = caught
             r["when"] = time.strftime("%Y-%m-%dT%H:%M:%S")
             r["repo_head"] = subprocess.check_output(["git", "-C", "/repo", "log", "--format=%h", "-1"], text=True).strip()
+            if os.path.exists(res_path):        # several invocations may run side by side: merge, do not overwrite
+                try:
+                    results = json.load(open(res_path))
+                except ValueError:
+                    pass
             results[n] = r
             print("%-8s %s %s" % (n, "applies" if r.get("applies") else "PATCH-FAILS",
                                   caught or [(x["check"], x["tier"], x["rc"]) for x in r["runs"]]), flush=True)
